@@ -45,7 +45,8 @@ func (c01) Cases(tier string, race bool) int {
 	return 40000
 }
 
-var c01gen = xt.GenCfg{Names: xt.DefNames, Prefixes: xt.DefPrefixes, Texts: xt.DefTexts, MaxKids: 4, MaxAttrs: 3, WideProb: 40}
+// (AttrCollide: p:id and q:id are different attributes with the same key; the later one is the entry of the Map)
+var c01gen = xt.GenCfg{Names: xt.DefNames, Prefixes: xt.DefPrefixes, Texts: xt.DefTexts, MaxKids: 4, MaxAttrs: 4, WideProb: 40, AttrCollide: true}
 
 // plainReader hides ReadByte so NewMapXmlReader must wrap it.
 type plainReader struct{ r io.Reader }
